@@ -31,7 +31,10 @@ SELF_WRITERS = {
     'Cell': ('__init__',),
 }
 CLOCK_CALLS = {('datetime', 'now'), ('datetime', 'today'), ('date', 'today'), ('random', 'random'), ('random', 'randint'), ('random', 'choice'),
-               ('random', 'uniform'), ('time', 'time'), ('os', 'environ'), ('time', 'localtime')}
+               ('random', 'uniform'), ('time', 'time'), ('os', 'environ'), ('time', 'localtime'), ('time', 'mktime'), ('os', 'getenv'),
+               ('datetime', 'fromtimestamp'), ('datetime', 'utcnow'), ('time', 'timezone'), ('time', 'tzname')}
+# methods that read the process environment whatever object they are called on: the local time zone
+ENV_METHODS = ('timestamp', 'astimezone', 'tzlocal')
 CLOCK_ALLOWED = ('NOW', 'TODAY', 'RAND', 'RANDBETWEEN')
 
 
@@ -243,6 +246,9 @@ def clock_reads(repo):
                 base = n.value.id if isinstance(n.value, ast.Name) else n.value.attr
                 if (base, n.attr) in CLOCK_CALLS:
                     out.append(('%s:%s.reads.%s.%s' % (rel, qual, base, n.attr), qual in CLOCK_ALLOWED, 'clock/random source read in %s' % qual))
+                elif n.attr in ENV_METHODS:
+                    out.append(('%s:%s.reads.local-time-zone.%s' % (rel, qual, n.attr), False,
+                                '.%s() converts through the process time zone: the value depends on where the process runs (%s)' % (n.attr, qual)))
             if isinstance(n, ast.Call) and isinstance(n.func, ast.Name) and n.func.id == 'to_date':
                 # dateutil.parser.parse without default=: missing fields are filled from today's date
                 has_default = any(k.arg == 'default' for k in n.keywords)
